@@ -18,6 +18,8 @@ Decided:
          no expression adds text and a number (TypeError instead of the ValueError that was meant)
   R02.5  empty selection: a constant subscript is never applied to a filtered comprehension (directly or
          through a local) without a dominating non-emptiness test - that IndexError would escape
+  R02.7  the fields of SimulationParameters (height window, cap, temperature limits, unmet-design policy) are written by
+         its constructor only - no search overrides the user's policy or limits on the shared object
   R02.6  maybe-None use: in the search classes no path reaches len() / subscript / return-as-coordinates
          with a local that is still None
 
@@ -58,7 +60,50 @@ def check(prog: Program, tier: str) -> Result:
     _rowwise_policy_and_none(prog, res, lb)
     _raise_discipline(prog, res)
     _empty_selection(prog, res)
+    _inputs_read_only(prog, res)
     return res
+
+
+def _inputs_read_only(prog: Program, res: Result):
+    """R02.7: the limits and the unmet-design policy the user set (the fields of SimulationParameters) are written by the
+    constructor of that class only.  The object is shared by manager, design, search and GHE: a search that overrides a field
+    'for a moment' changes the policy / window of everything that runs afterwards, on every path that does not put it back."""
+    init = prog.func("ghedesigner.simulation.SimulationParameters.__init__")
+    fields = {attr_chain(t).split(".")[1] for s_ in ast.walk(init.node) if isinstance(s_, ast.Assign) for t in s_.targets if (attr_chain(t) or "").startswith("self.") and attr_chain(t).count(".") == 1}
+    if len(fields) < 6:
+        raise AnalysisError("SimulationParameters: fields not found")
+    n = 0
+    for q, fi in sorted(prog.funcs.items()):
+        if fi is init:
+            continue
+        for x in walk_no_nested(fi.node):
+            tg = []
+            if isinstance(x, ast.Assign):
+                tg = [t for t in x.targets]
+            elif isinstance(x, (ast.AugAssign, ast.AnnAssign)):
+                tg = [x.target]
+            elif isinstance(x, ast.Call) and attr_chain(x.func) == "setattr" and len(x.args) >= 2 and isinstance(x.args[1], ast.Constant) and x.args[1].value in fields:
+                tg = [ast.Attribute(value=x.args[0], attr=x.args[1].value, ctx=ast.Store())]
+            for t in tg:
+                for a in ([t] if not isinstance(t, (ast.Tuple, ast.List)) else t.elts):
+                    if isinstance(a, ast.Attribute) and a.attr in fields:
+                        ch = attr_chain(a) or ast.unparse(a)
+                        base = ch.rsplit(".", 1)[0]
+                        # an object's own field of the same name (HybridLoad.start_month) is not the user's parameter object
+                        own = base == "self" and fi.cls and fi.cls != "SimulationParameters"
+                        if own:
+                            continue
+                        restored = any(isinstance(t_, ast.Try) and any(isinstance(f_, ast.Assign) and any(attr_chain(tt) == ch for tt in f_.targets) and isinstance(f_.value, ast.Name) for f_ in t_.finalbody)
+                                       for t_ in ast.walk(fi.node))
+                        if restored:
+                            # an override that a finally clause undoes on every way out: what it does to the run in between is not decided here
+                            raise AnalysisError(f"{q}: {ch} is overridden temporarily and restored in a finally clause - the effect on the run in between is not decided statically")
+                        n += 1
+                        res.ob("R02.7", f"{q}: writes {ch}", False, prog.loc(fi, x))
+                        res.violation("R02.7", f"input-written|{q}|{ch}", prog.loc(fi, x), q,
+                                      f"'{norm_stmt(x)[:90]}' overwrites a limit / policy the user set on the shared parameter object: whatever runs afterwards (the inner search, the sizing, a later design on the "
+                                      "same manager) sees the overridden value unless every path restores it")
+    res.ob("R02.7", f"height window, borehole cap, temperature limits and the unmet-design policy are written only by SimulationParameters.__init__ ({len(fields)} fields)", n == 0, "ghedesigner/simulation.py")
 
 
 # ---------------------------------------------------------------------------
@@ -918,6 +963,9 @@ def _guarded_nonempty(fn, name: str, use: ast.AST) -> bool:
 
 
 VARIANTS = [
+    Variant("the outer pass of the nested search overrides the user's unmet-design policy and restores it only on failure (seeded C02_g)", "break",
+            [(SR, "        selection_key, _ = self.search()\n\n        self.calculated_temperatures_nested.append(self.calculated_temperatures)",
+              "        unmet_policy = self.sim_params.continue_if_design_unmet\n        self.sim_params.continue_if_design_unmet = True\n        try:\n            selection_key, _ = self.search()\n        except ValueError:\n            self.sim_params.continue_if_design_unmet = unmet_policy\n            raise\n\n        self.calculated_temperatures_nested.append(self.calculated_temperatures)")], "R02.7"),
     Variant("solve_root without a sign change takes the bound 'closest to the root' (seeded C02_e)", "break",
             [(UT, "    elif kg_plus_sign == -1 and kg_minus_sign == -1:\n        x = lower\n    elif kg_plus_sign == 1 and kg_minus_sign == 1:\n        x = upper\n", "    else:\n        x = lower if abs(minus) < abs(plus) else upper\n")], "R02.1"),
     Variant("solve_root without a sign change chooses the bound by a conditional expression on the sign", "benign",
